@@ -373,6 +373,10 @@ class_model(
     },
 )
 V.NONE_TEST["Value"] = lambda sv: SV(TBool, core.uf("Value.is_none", TValue.sort(), z3.BoolSort())(sv.t))
+_VALUE_NONE = z3.Const("Value.none", TValue.sort())
+from pyvc import verify as _verify_mod  # noqa: E402
+_verify_mod.GLOBAL_AXIOMS.append(lambda: [core.uf("Value.is_none", TValue.sort(), z3.BoolSort())(_VALUE_NONE)])
+core.COERCIONS[("NoneType", repr(TValue))] = lambda v: SV(TValue, _VALUE_NONE)
 registry.EXTERNALS["Value.dependencies"] = lambda ctx, st, obj: SV(
     TSet(TName), core.uf("Value.dependencies", TValue.sort(), TSet(TName).sort())(obj.t))
 
